@@ -52,9 +52,11 @@ def exposed_key(cards, order):
 
 def stud_opener(opening, ups):
     """`ups`: {player: [up-cards]} of live players.  Returns the designated opener or None (UNSPECIFIED:
-    a player without exposed cards makes the rule undefined)."""
+    a player without exposed cards, or an unknown up-card, makes the rule undefined)."""
     if not ups or any(not v for v in ups.values()) or any(len(v) > 4 for v in ups.values()):
         return None
+    if any(getattr(c, 'unknown_status', False) for v in ups.values() for c in v):
+        return None                    # an unknown ("??") up-card: nothing can be said about the opener
     name = str(getattr(opening, 'name', opening))
     if name == 'LOW_CARD':        # lowest up-card opens, ace high, suits c<d<h<s break ties
         return min(ups, key=lambda i: (min((STD.index(rank_of(c)), SUITS.index(suit_of(c))) for c in ups[i]), i))
